@@ -39,6 +39,30 @@ CLAIMED = {
         technique="contract-based: run-time contracts on exhaustive small scopes and seeded random tables (bounded stand-in); "
                   "deductive obligations where listed in evidence",
         design_ref="8 (C07)"),
+    "C03": dict(
+        category="other",
+        text="Run-time contracts (bounded stand-in) on the real do_segmentation for none, haar, hmm, hmm-tumor, hmm-germline x "
+             "skip_low x outlier filter x min_weight x 1..16 processes on generated bin tables (centromere gaps, zero-weight "
+             "and null-coverage bins at edges and interior, X/Y): per chromosome sorted, positive-length, non-overlapping "
+             "segments inside the input span; every surviving bin in exactly one segment whose probes counts them; per-arm "
+             "methods reach the arm's first and last input bin; weight/depth/gene aggregated over all spanned input bins; "
+             "log2 = weight-averaged log2 of the surviving bins for none and hmm*; by_arm partitions each chromosome.",
+        note="HMM state sequences, haar wavelet statistics and pomegranate are outside any contract; cbs/flasso need R and "
+             "are not exercised; the surviving-bin set is computed with the package's own filters",
+        technique="contract-based: run-time contracts with a tiling oracle on seeded random bin tables (bounded stand-in)",
+        design_ref="8 (C03)"),
+    "C10": dict(
+        category="other",
+        text="Frames: every contract's arguments are deep-compared before/after each call (run time) and, in the deductive "
+             "tier, proved unchanged by frame obligations; plus run-time contracts specific to C10: caller-owned lists of "
+             "do_call/by_gene/get_gene_intervals/transfer_fields untouched; segment/segmetrics/fix/bintest/shuffle+sort "
+             "repeatable under arbitrary global RNG state and 1 vs N workers; random call sequences of length <= 4 over 21 "
+             "operations on shared objects equal the same operation on fresh objects and leave the shared objects unchanged; "
+             "k x (ensure_path; write) leaves k files and never touches pre-existing numbered backups.",
+        note="process scheduling itself is not explored (ordered pool.map is assumed); sequences are sampled, not enumerated",
+        technique="contract-based: frame clauses (deductive where the function is in the subset) + run-time contracts on "
+                  "generated call sequences (bounded stand-in)",
+        design_ref="8 (C10)"),
     "C12": dict(
         category="other",
         text="Run-time contracts (bounded stand-in) on the real do_target (split on/off, label shortening), shorten_labels and "
@@ -79,6 +103,17 @@ CLAIMED = {
         note="deductive kernels are listed in evidence when present (the reference/expected copies used by bed/vcf are proved under C01)",
         technique="contract-based: run-time contracts with statement-derived oracles on seeded random segment tables and files (bounded stand-in); deductive obligations where listed in evidence",
         design_ref="8 (C20)"),
+    "C16": dict(
+        category="other",
+        text="Run-time contracts (bounded stand-in) on the real CopyNumArray.by_gene (every bin exactly once; each named gene "
+             "from its first to its last bin; Antitarget blocks exactly the stretches before, between and after; default and "
+             "filtered non-default index; caller's ignore list untouched), do_genemetrics with and without segments, "
+             "squash_genes and do_breaks, against a partition oracle written from the statement.",
+        note="Series-row and nested-dict manipulation in reports.py is outside the deductive subset; genes are named without "
+             "commas (a comma-joined name belongs to two genes and is outside the statement's hypothesis)",
+        technique="contract-based: run-time contracts with a statement-derived partition oracle on seeded random bin tables "
+                  "(bounded stand-in)",
+        design_ref="8 (C16)"),
     "C19": dict(
         category="other",
         text="Deductive: _width2wing (window half-width always in [1, n-1]) discharged by SMT for all lengths and widths. "
